@@ -51,4 +51,15 @@ def modelObs (c : Case) : Obs :=
   let r := resume c.conn c.secret c.writeOk c.reply
   ⟨r.sentDigest, r.err, r.states.map ConnState.code, if r.recvStarted then c.posts else 0⟩
 
+/-- A further connection attempt of a component whose previous session was closed gracefully by the server (the
+state is still "established" when `Resume` starts): what the harness reports is the error class of `Resume` and the
+component's state afterwards. "any other reply yields an error and a non-established state". -/
+def holdsReconnect (reply : Reply) (err : Option Bool) (stateAfter : Nat) : Bool :=
+  reply == .handshake || (err.isSome && stateAfter != established)
+
+/-- the model's prediction: the state after `Resume` is the last one it announced -/
+def modelReconnect (reply : Reply) : Option Bool × Nat :=
+  let r := resume (.opened []) [] true reply
+  (r.err, (r.states.getLast?.map ConnState.code).getD established)
+
 end XmppVerif.Spec.C16
